@@ -109,6 +109,9 @@ def oracle_eval(o, rc, out, err):
             return True, "stdout is not JSON: %r" % out[:80]
         bad = [r for r in recs if not r.get(o.get("field", "ok"))]
         return bool(bad), "%d of %d records disagree; first: %s" % (len(bad), len(recs), json.dumps(bad[0])[:300] if bad else "-")
+    if kind == "error_reported_no_crash":
+        bad = rc != 1 or b"panicked at" in err or b"error:" not in err
+        return bad, "exit=%d stderr=%s" % (rc, err.decode("utf-8", "replace")[:300])
     if kind == "error_expected":
         bad = rc == 0
         return bad, "exit=%d stdout=%r" % (rc, out[:80])
@@ -308,6 +311,18 @@ def _slice_range(vals, v):
         else:
             cases.append({"source": src, "oracle": {"oracle": "no_crash"}})
     return cases
+
+
+@adapter("crop")
+def _crop(vals, v):
+    """every small crop size (and the counterexample's, clipped) on a run-time error with a 12-frame trace"""
+    sizes = [0, 1, 2, 3, 4, 5, 6, 7, 11, 12, 13]
+    try:
+        sizes.insert(0, min(u(vals, 1), 40))
+    except Exception:
+        pass
+    prog = 'local f(n) = if n == 0 then error "x" else 1 + f(n - 1); f(10)'
+    return [{"source": prog, "args": ["--max-trace", str(m)], "oracle": {"oracle": "error_reported_no_crash"}} for m in sizes]
 
 
 # ---- parser precedence: probes, not decoded counterexamples -----------------------------------
